@@ -23,7 +23,7 @@ NEEDS_RUST = True
 WORKERS = 14
 CASE_TIMEOUT = 420
 QUIESCENCE_SCOPE = "process"   # helpers are polling feeders only
-QUIESCENCE_AFTER = 60.0
+QUIESCENCE_AFTER = 25.0
 REQUIRED_OBS = ["streams", "epoch_checks", "periodicity_checks", "rust_epoch_permutations", "interleaved_stream_pairs"]
 RULE = ("datasets (all formats, 1..many shards, nested lists) x interface x shuffle {0, small, >N} x "
         "file_parallelism {1,2,S,S+1,2S+3, 16} x epochs m in {2,3,5}. Distinct = (format, interface, shuffle class, "
@@ -160,6 +160,39 @@ def run_case(case: dict) -> dict:
                         closer()
                     except BaseException:  # pylint: disable=broad-exception-caught
                         pass
+        # ---- two Python threads, each consuming several epochs of its own repeating stream (epoch boundaries of
+        #      one thread fall while the other is inside its iterator); a deadlock is diagnosed by the
+        #      orchestrator's quiescence oracle
+        import threading
+        from sedpack.io import Dataset
+        thread_ifaces = [i for i in ifaces if i in ("rust", "sync", "conc") and not (i == "conc" and fmt == "tfrec")]
+        if thread_ifaces:
+            iface = "rust" if "rust" in thread_ifaces else rng.choice(thread_ifaces)
+            results: dict = {}
+
+            def consume(name: str, split: str, epochs: int) -> None:
+                try:
+                    kwargs = {"file_parallelism": 2} if "file_parallelism" in readers.ACCEPTS[iface] else {}
+                    handle = Dataset(dataset.path)
+                    want = reference(split)
+                    got, _ = dsmod.ids_of(readers.read(handle, iface, split, shuffle=0, repeat=True,
+                                                      limit=epochs * len(want) + 1, **kwargs))
+                    results[name] = got == list(itertools.islice(itertools.cycle(want), len(got)))
+                except BaseException as exc:  # pylint: disable=broad-exception-caught
+                    results[name] = f"{type(exc).__name__}: {str(exc)[:160]}"
+
+            for split in splits:
+                reference(split)
+            threads = [threading.Thread(target=consume, args=(f"t{k}", rng.choice(splits), 3 + k)) for k in range(2)]
+            for thread in threads:
+                thread.start()
+            for thread in threads:
+                thread.join()
+            obs["two_thread_stream_pairs"] += 1
+            for name, outcome in results.items():
+                if outcome is not True:
+                    violations.append({"key": f"repeating-streams-in-two-threads/{iface}",
+                                       "msg": f"{fmt} {name}: {'stream deviates from the periodic sequence' if outcome is False else outcome}"})
         return {"sigs": sigs, "sig": None, "nontrivial": True, "violations": violations, "obs": dict(obs),
                 "sample": {"fmt": fmt, "splits": {s: len(reference(s)) for s in splits}}}
     finally:
